@@ -15,5 +15,17 @@ CHECK = {
     "units": {
         "hist": {"pkg": "middleware/cache", "run": "TestVerifC13Hist", "harness": _H, "rewrite": _RW, "stub_tests": ["middleware/cache"],
                  "budget_s": {"quick": 80, "thorough": 800}},
+        # the back-off state under concurrent recorders / recoveries / lookups (schedule exploration)
+        "conc": {"pkg": "middleware/cache", "run": "TestVerifC13Conc",
+                 "harness": {"middleware/cache": ["zz_verif_c13conc_test.go"]},
+                 "rewrite": {"internal/cache": ["sync", "sync/atomic"]}, "stub_tests": ["middleware/cache"],
+                 "race_pass": True, "gomaxprocs": 1, "budget_s": {"quick": 60, "thorough": 420}},
+        # the resolver's side: which zone failures (and request-local failures) become shared state, against authsim
+        "zone": {"pkg": "internal/verifshim/h_c13", "run": "TestVerifC13Zone",
+                 "harness": {"middleware": ["zz_verif_export.go", "zz_verif_export_c12topo.go"],
+                             "middleware/resolver": ["zz_verif_export_authsim.go", "zz_verif_export_c12topo.go"],
+                             "middleware/cache": ["zz_verif_export_authsim.go", "zz_verif_export_c13zone.go"],
+                             "internal/authority": ["zz_verif_export_authsim.go", "zz_verif_export_c12topo.go"]},
+                 "shards": 16, "gomaxprocs": 2, "budget_s": {"quick": 75, "thorough": 600}},
     },
 }
